@@ -334,62 +334,81 @@ def cmp_family():
 
 
 def mul_family():
+    # Multiplication: a symbolic x symbolic 64-bit product cannot be compared with an oracle product by the SAT
+    # solver (time-outs even for 2 words), a symbolic x LITERAL product can. Every harness therefore fixes one
+    # operand to a literal of a class (small odd, all ones, top bit, power of two, radix power) and leaves the other
+    # operand - and the accumulator - fully symbolic; symbolic x symbolic is kept for one-word operands only.
+    def lits(cfg, n):
+        W = 64 if cfg.endswith("64") else 32
+        M = (1 << W) - 1
+        # sparse literals only: dense ones (2^W - 1, 0x5555...) were probed and time out
+        L1 = {"l3": [3], "l5": [5], "ltop1": [(1 << (W - 1)) + 1], "lp2": [1 << (W // 2)]}
+        L2 = {"l2_31": [3, 1], "l2_p2": [0, 1 << (W // 2)], "l2_top": [1, 1 << (W - 1)], "l2_13": [13, 1]}
+        L3 = {"l3_705": [7, 0, 5], "l3_301": [3, 0, 1], "l3_p2": [0, 0, 1 << 7]}
+        L4 = {"l4_a": [3, 0, 0, 11]}
+        return {1: L1, 2: L2, 3: L3, 4: L4}[n]
     for cfg in ("w64", "w32"):
         pr = mix(quick=("C01", "C19") if cfg == "w32" else ("C01",), thorough=("C16",))
         H("k_mul_add_carry", "h_mul::k_mul_add_carry()", pr, cfg, unwind=2, bound="math::mul_add_carry/2carry, all words")
-        for n in (2, 3):
-            H("k_mul_word_%d" % n, "h_mul::k_mul_word::<%d>()" % n, pr if n == 2 else TH("C01", "C19"), cfg, unwind=n + 3, bound="mul_word_in_place_with_carry on %d words, full width, product-sharing oracle" % n)
-            H("k_add_mul_word_%d" % n, "h_mul::k_add_mul_word::<%d>()" % n, pr if n == 2 else TH("C01", "C19"), cfg, unwind=n + 3, bound="add_mul_word_same_len_in_place on %d words, full width" % n)
-            H("k_sub_mul_word_%d" % n, "h_mul::k_sub_mul_word::<%d>()" % n, pr if n == 2 else TH("C01", "C19"), cfg, unwind=n + 3, bound="sub_mul_word_same_len_in_place on %d words, full width" % n)
+        for ln, lv in lits(cfg, 1).items():
+            for n in (3, 4):
+                q = pr if (n == 3 and ln in ("l3", "l5", "ltop1")) else TH("C01", "C19")
+                H("k_mul_word_%d_%s" % (n, ln), "h_mul::k_mul_word::<%d>(%d)" % (n, lv[0]), q, cfg, unwind=n + 3, bound="mul_word_in_place_with_carry: %d symbolic words and carry x literal %s" % (n, ln))
+                H("k_add_mul_word_%d_%s" % (n, ln), "h_mul::k_add_mul_word::<%d>(%d)" % (n, lv[0]), q, cfg, unwind=n + 3, bound="add_mul_word_same_len_in_place: %d+%d symbolic words x literal %s" % (n, n, ln))
+                H("k_sub_mul_word_%d_%s" % (n, ln), "h_mul::k_sub_mul_word::<%d>(%d)" % (n, lv[0]), q, cfg, unwind=n + 3, bound="sub_mul_word_same_len_in_place: %d+%d symbolic words x literal %s" % (n, n, ln))
         for s in "pn":
-            for (na, nb) in ((1, 1), (2, 1), (2, 2)):
-                H("k_simple_full_%d%d_%s" % (na, nb, s), "h_mul::k_simple::<%d,%d,%d>(%s,true,0)" % (na, nb, na + nb, SIGN[s]),
-                  pr if (na, nb) != (2, 2) else TH("C01", "C19"), cfg, unwind=na + nb + 3, bound="schoolbook c+=sign*a*b, %dx%d words, full width, product-sharing oracle" % (na, nb))
-            H("k_simple_full_32_%s" % s, "h_mul::k_simple::<3,2,5>(%s,true,0)" % SIGN[s], TH("C01"), cfg, unwind=8, bound="schoolbook 3x2 words, full width")
-            for (na, nb) in ((3, 3), (4, 3), (4, 4)):
-                H("k_simple_s4_%d%d_%s" % (na, nb, s), "h_mul::k_simple::<%d,%d,%d>(%s,false,4)" % (na, nb, na + nb, SIGN[s]),
-                  Q("C01") if (cfg == "w64" and (na, nb) == (3, 3)) else TH("C01", "C19"), cfg, unwind=na + nb + 3,
-                  bound="schoolbook %dx%d words, structured words (4-bit payload x 4 placements)" % (na, nb))
-            for n in (3, 4, 5, 6):
-                H("k_karatsuba_%d_%s" % (n, s), "h_mul::k_karatsuba::<%d,%d>(%s,3)" % (n, 2 * n, SIGN[s]), TH("C01", "C19"), cfg, unwind=2 * n + 3,
-                  bound="Karatsuba kernel n=%d, structured words (3-bit payload x 4 placements), non-zero accumulator" % n)
-        H("k_sqr_full_2", "h_mul::k_sqr::<2,4>(true,0)", TH("C01"), cfg, unwind=7, bound="sqr 2 words, full width")
-        for n in (2, 3, 4):
-            H("k_sqr_s4_%d" % n, "h_mul::k_sqr::<%d,%d>(false,4)" % (n, 2 * n), Q("C01") if (cfg == "w64" and n <= 3) else TH("C01", "C19"), cfg, unwind=2 * n + 3, bound="sqr %d words, structured" % n)
-        for n in (2, 3, 4):
-            H("k_mul_dword_s4_%d" % n, "h_mul::k_mul_dword::<%d,%d>(4)" % (n, n + 2), Q("C01") if (cfg == "w64" and n <= 3) else TH("C01", "C19"), cfg, unwind=n + 5, bound="mul_dword_in_place on %d words, structured" % n)
-    # operators
-    for na in range(0, 4):
-        for nb in range(0, 4):
-            m = max(na + nb, 1)
-            for f in range(5):
-                quick = f == (na * 2 + nb) % 5
-                H("c01_mul_u_%d%d_%s" % (na, nb, FORMS5[f]), "h_mul::mul_u::<%d,%d,%d>(%d,false,%d)" % (na, nb, m, f, 5 if max(na, nb) <= 2 or na == nb else 2),
-                  Q("C01", "C15", "C17") if quick else TH("C01", "C15", "C17"), unwind=m + 5, bound="UBig*UBig lengths exactly (%d,%d), structured words (5-bit payload)" % (na, nb))
-            if na + nb <= 2 and na and nb:
-                H("c01_mul_u_full_%d%d" % (na, nb), "h_mul::mul_u::<%d,%d,%d>(1,true,0)" % (na, nb, m), TH("C01"), unwind=m + 5, bound="UBig*UBig (%d,%d) full width" % (na, nb))
-            for sa in "pn":
-                for sb in "pn":
-                    if (na == 0 and sa == "n") or (nb == 0 and sb == "n"):
+            for na in (1, 2, 3, 4):
+                for nb in (1, 2, 3):
+                    if nb > na:
                         continue
-                    f = (na + nb + (sa == "n") + 2 * (sb == "n")) % 5
-                    quick = (na, nb) in ((1, 1), (2, 1), (3, 2), (0, 2), (3, 3), (1, 3))
-                    H("c01_mul_i_%d%d_%s%s" % (na, nb, sa, sb), "h_mul::mul_i::<%d,%d,%d>(%s,%s,%d,4)" % (na, nb, m, SIGN[sa], SIGN[sb], f),
-                      Q("C01", "C15") if quick else TH("C01", "C15"), unwind=m + 5, bound="IBig*IBig lengths (%d,%d) signs %s%s, structured" % (na, nb, sa, sb))
-            for sb in "pn":
-                if nb == 0 and sb == "n":
-                    continue
-                w = (na + nb + (sb == "n")) % 4
-                H("c15_mul_mixed_%d%d_%s_%d" % (na, nb, sb, w), "h_mul::mul_mixed::<%d,%d,%d>(%s,%d,4)" % (na, nb, m, SIGN[sb], w),
-                  Q("C15") if (na + nb) % 2 == 1 else TH("C15", "C01"), unwind=m + 5, bound="UBig*IBig mixed forms (%d,%d)" % (na, nb))
-    for n in (1, 2, 3):
+                    for ln, lv in lits(cfg, nb).items():
+                        q = cfg == "w64" and na <= 3 and ln in ("l3", "ltop1", "l2_31", "l2_p2", "l3_705", "l3_301") and (s == "p" or na == 3)
+                        H("k_simple_%d%d_%s_%s" % (na, nb, ln, s), "h_mul::k_simple::<%d,%d,%d>(%s,true,0,Some([%s]))" % (na, nb, na + nb, SIGN[s], ",".join(map(str, lv))),
+                          Q("C01") if q else TH("C01", "C19"), cfg, unwind=na + nb + 3, bound="schoolbook c += sign*a*b: a (%d words) and c symbolic, b literal %s" % (na, ln))
+            for n in (3, 4):
+                for ln, lv in lits(cfg, n).items():
+                    H("k_karatsuba_%d_%s_%s" % (n, ln, s), "h_mul::k_karatsuba::<%d,%d>(%s,0,Some([%s]))" % (n, 2 * n, SIGN[s], ",".join(map(str, lv))),
+                      Q("C01") if (cfg == "w64" and n == 3 and ln in ("l3_705", "l3_301") and s == "p") else TH("C01", "C19"), cfg, unwind=2 * n + 3,
+                      bound="Karatsuba kernel n=%d: a and the accumulator symbolic, b literal %s" % (n, ln))
+        for n in (2, 3):
+            H("k_sqr_s2_%d" % n, "h_mul::k_sqr::<%d,%d>(false,2)" % (n, 2 * n), TH("C01", "C19"), cfg, unwind=2 * n + 3, bound="sqr %d words, structured (2-bit payload)" % n)
+        for n in (2, 3, 4):
+            for ln, lv in lits(cfg, 2).items():
+                H("k_mul_dword_%d_%s" % (n, ln), "h_mul::k_mul_dword::<%d,%d>(0,Some([%s]))" % (n, n + 2, ",".join(map(str, lv))),
+                  Q("C01") if (cfg == "w64" and n == 3 and ln in ("l2_31", "l2_p2")) else TH("C01", "C19"), cfg, unwind=n + 5, bound="mul_dword_in_place: %d symbolic words x literal %s" % (n, ln))
+    # operators: first operand symbolic, second literal (either side), every form
+    for na in range(0, 4):
+        for nb in range(1, 4):
+            m = max(na + nb, 1)
+            for ln, lv in lits("w64", nb).items():
+                ls = ",".join(map(str, lv))
+                for f in range(5):
+                    for sw in (False, True):
+                        quick = f == (na * 2 + nb + sw) % 5 and ln in ("l3", "l5", "l2_31", "l2_p2", "l3_705", "l3_p2") and (not sw or na == 3)
+                        H("c01_mul_u_%d_%s_%s%s" % (na, ln, FORMS5[f], "_sw" if sw else ""), "h_mul::mul_u::<%d,%d,%d>(%d,false,0,Some([%s]),%s)" % (na, nb, m, f, ls, "true" if sw else "false"),
+                          Q("C01", "C15", "C17") if quick else TH("C01", "C15", "C17"), unwind=m + 5, bound="UBig*UBig: %d symbolic words x literal %s, form %s%s" % (na, ln, FORMS5[f], " (literal on the left)" if sw else ""))
+                for sa in "pn":
+                    for sb in "pn":
+                        if na == 0 and sa == "n":
+                            continue
+                        f = (na + nb + (sa == "n") + 2 * (sb == "n")) % 5
+                        quick = ln in ("l3", "l2_31", "l3_705") and na in (1, 3)
+                        H("c01_mul_i_%d_%s_%s%s" % (na, ln, sa, sb), "h_mul::mul_i::<%d,%d,%d>(%s,%s,%d,0,Some([%s]))" % (na, nb, m, SIGN[sa], SIGN[sb], f, ls),
+                          Q("C01", "C15") if quick else TH("C01", "C15"), unwind=m + 5, bound="IBig*IBig: %d symbolic words x literal %s, signs %s%s" % (na, ln, sa, sb))
+                for sb in "pn":
+                    w = (na + nb + (sb == "n")) % 4
+                    H("c15_mul_mixed_%d_%s_%s_%d" % (na, ln, sb, w), "h_mul::mul_mixed::<%d,%d,%d>(%s,%d,0,Some([%s]))" % (na, nb, m, SIGN[sb], w, ls),
+                      Q("C15") if (ln in ("l3", "l2_31") and na in (2, 3)) else TH("C15", "C01"), unwind=m + 5, bound="UBig*IBig mixed forms: %d symbolic words x literal %s" % (na, ln))
+    # symbolic x symbolic: one-word operands only (structured, 5-bit payload)
+    for f in range(5):
+        H("c01_mul_u_11_%s" % FORMS5[f], "h_mul::mul_u::<1,1,2>(%d,false,5,None,false)" % f, Q("C01", "C15") if f in (0, 4) else TH("C01", "C15"), unwind=7, bound="UBig*UBig one word x one word, structured words")
+    for n in (1, 2):
         for w in range(4):
-            H("c01_sqr_u_%d_%d" % (n, w), "h_mul::sqr_u::<%d,%d,%d>(%d,4)" % (n, 2 * n, 3 * n, w), Q("C01", "C15") if (n <= 2 or w != 3) else TH("C01"), unwind=3 * n + 5,
-              bound="x*x (equal-operand shortcut) / sqr / cubic, length %d, structured" % n)
-    for e in range(0, 8):
-        m = 1 if 16 * e <= 64 else 2
-        H("c01_pow_u_e%d" % e, "h_mul::pow_u::<%d>(%d,9,false)" % (m, e), Q("C01"), unwind=m + 10, bound="UBig::pow, base = p*2^t or 2^t (p<2^9, t<8), exponent %d" % e)
-        H("c01_pow_i_e%d" % e, "h_mul::pow_u::<%d>(%d,9,true)" % (m, e), Q("C01") if e % 2 else TH("C01"), unwind=m + 10, bound="IBig::pow negative base, exponent %d" % e)
+            H("c01_sqr_u_%d_%d" % (n, w), "h_mul::sqr_u::<%d,%d,%d>(%d,2)" % (n, 2 * n, 3 * n, w), Q("C01", "C15") if n == 1 else TH("C01"), unwind=3 * n + 5,
+              bound="x*x (equal-operand shortcut) / sqr / cubic, length %d, structured (2-bit payload)" % n)
+    for e in range(0, 6):
+        H("c01_pow_u_e%d" % e, "h_mul::pow_u::<1>(%d,4,false)" % e, Q("C01") if e in (0, 1, 2, 3) else TH("C01"), unwind=12, bound="UBig::pow, base = p*2^t or 2^t (p<2^4, t<8), exponent %d" % e)
+        H("c01_pow_i_e%d" % e, "h_mul::pow_u::<1>(%d,4,true)" % e, Q("C01") if e in (1, 3) else TH("C01"), unwind=12, bound="IBig::pow negative base, exponent %d" % e)
 
 
 def wconst(cfg, name):
@@ -510,19 +529,33 @@ def conv_family():
                     H("c06_to_%s_%d_%s" % (PN[w], n, s), "h_conv::to_prim::<%d>(%s,%d)" % (n, SIGN[s], w),
                       Q("C06") if quick else (TH("C06") if cfg == "w64" else TH("C06", "C19")), cfg, unwind=n + 6,
                       bound="TryFrom<UBig/IBig> for %s, integer length exactly %d words (%s)" % (PN[w], n, s))
+        Wd = 64 if cfg == "w64" else 32
+        TOPS = {"t1": 1, "t3": 3, "thi": 1 << (Wd - 1), "thi1": (1 << (Wd - 1)) + 1, "tmax": (1 << Wd) - 1, "tmid": 1 << 20}
         for n in range(0, 6):
             for s in "pn":
                 if n == 0 and s == "n":
                     continue
                 for f64_ in (False, True):
-                    quick = cfg == "w64" and n <= 4
                     nm = "f64" if f64_ else "f32"
-                    H("c06_to_%s_%d_%s" % (nm, n, s), "h_conv::to_float::<%d>(%s,%s)" % (n, SIGN[s], "true" if f64_ else "false"),
-                      Q("C06") if quick else TH("C06", "C19"), cfg, unwind=n + 6,
-                      bound="to_%s of an integer of exactly %d words (%s): value, Exact flag, error sign vs integer reference" % (nm, n, s))
-                    H("c06_try_%s_%d_%s" % (nm, n, s), "h_conv::int_to_float_exact::<%d>(%s,%s)" % (n, SIGN[s], "true" if f64_ else "false"),
-                      Q("C06") if (quick and n <= 3) else TH("C06", "C19"), cfg, unwind=n + 6,
-                      bound="TryFrom<UBig/IBig> for %s, integer of exactly %d words (%s)" % (nm, n, s))
+                    fb = "true" if f64_ else "false"
+                    if n <= 2:
+                        quick = cfg == "w64"
+                        H("c06_to_%s_%d_%s" % (nm, n, s), "h_conv::to_float::<%d>(%s,%s,0)" % (n, SIGN[s], fb),
+                          Q("C06") if quick else TH("C06", "C19"), cfg, unwind=n + 6,
+                          bound="to_%s of every integer of exactly %d words (%s): value, Exact flag, error sign vs integer reference" % (nm, n, s))
+                        H("c06_try_%s_%d_%s" % (nm, n, s), "h_conv::int_to_float_exact::<%d>(%s,%s,0)" % (n, SIGN[s], fb),
+                          Q("C06") if quick else TH("C06", "C19"), cfg, unwind=n + 6,
+                          bound="TryFrom<UBig/IBig> for %s, every integer of exactly %d words (%s)" % (nm, n, s))
+                    else:
+                        for tn, tv in TOPS.items():
+                            quick = cfg == "w64" and n <= 4 and ((tn in ("t1", "thi1", "tmax") and n == 3) or (tn == "t3" and n == 4)) and (s == "p" or tn == "t1")
+                            H("c06_to_%s_%d_%s_%s" % (nm, n, s, tn), "h_conv::to_float::<%d>(%s,%s,%d)" % (n, SIGN[s], fb, tv),
+                              Q("C06") if quick else TH("C06", "C19"), cfg, unwind=n + 6,
+                              bound="to_%s of integers of exactly %d words (%s) with top word literal %s and all lower words symbolic" % (nm, n, s, tn))
+                            if tn in ("t1", "tmax"):
+                                H("c06_try_%s_%d_%s_%s" % (nm, n, s, tn), "h_conv::int_to_float_exact::<%d>(%s,%s,%d)" % (n, SIGN[s], fb, tv),
+                                  TH("C06", "C19"), cfg, unwind=n + 6,
+                                  bound="TryFrom<UBig/IBig> for %s, %d words (%s), top word literal %s" % (nm, n, s, tn))
     # TryFrom<f32/f64> for UBig/IBig and NumOrd against f32/f64 (decode, then << / >> by a data-dependent amount)
     # are NOT harnessed: every formulation tried (exponent windows, inline-only regime, before and after the
     # cut was moved inside the heap arms) ran out of memory in CBMC because the shift amount - and with it
@@ -540,17 +573,21 @@ def text_family():
                   unwind=L + 8, bound="UBig::from_%s_bytes of %d arbitrary bytes" % ("be" if be else "le", L))
                 H("c07_from_%s_bytes_i_%d" % ("be" if be else "le", L), "h_text::from_bytes_i::<%d,%d>(%s)" % (L, L // WBY + 2, "true" if be else "false"), pr, cfg,
                   unwind=L + 3 * WBY + 4, bound="IBig::from_%s_bytes of %d arbitrary bytes (two's complement)" % ("be" if be else "le", L))
+        Wd = 64 if cfg == "w64" else 32
+        BT = {"t1": 1, "t7f": 0x7f, "t80": 0x80, "tff": 0xff, "t100": 0x100, "thi": 1 << (Wd - 1), "tmax": (1 << Wd) - 1, "tmid": 0x8000}
         for n in range(0, 5):
             for be in (False, True):
-                q = cfg == "w64" and n <= 3
-                pr = Q("C07", "C17") if q else (TH("C07") if cfg == "w64" else mix(quick=("C19",) if n == 3 else (), thorough=("C07", "C19")))
-                H("c07_to_%s_bytes_u_%d" % ("be" if be else "le", n), "h_text::to_bytes_u::<%d>(%s)" % (n, "true" if be else "false"), pr, cfg,
-                  unwind=(n + 1) * WBY + 4, bound="UBig::to_%s_bytes, length exactly %d words: bytes, minimal length, round trip" % ("be" if be else "le", n))
-                for s in "pn":
-                    if n == 0 and s == "n":
-                        continue
-                    H("c07_to_%s_bytes_i_%d_%s" % ("be" if be else "le", n, s), "h_text::to_bytes_i::<%d>(%s,%s)" % (n, SIGN[s], "true" if be else "false"), pr, cfg,
-                      unwind=(n + 2) * WBY + 4, bound="IBig::to_%s_bytes (%s), length exactly %d words: two's complement meaning and round trip" % ("be" if be else "le", s, n))
+                for tn, tv in (BT.items() if n > 0 else [("t0", 0)]):
+                    q = cfg == "w64" and n <= 3 and tn in ("t1", "t80", "tff", "thi", "tmax", "t0") and (be == (n % 2 == 0) or tn in ("t1", "t80"))
+                    pr = Q("C07", "C17") if q else (TH("C07") if cfg == "w64" else mix(quick=("C19",) if (n == 3 and tn == "t1") else (), thorough=("C07", "C19")))
+                    H("c07_to_%s_bytes_u_%d_%s" % ("be" if be else "le", n, tn), "h_text::to_bytes_u::<%d>(%s,%d)" % (n, "true" if be else "false", tv), pr, cfg,
+                      unwind=(n + 1) * WBY + 4, bound="UBig::to_%s_bytes, exactly %d words with top word literal %s, lower words symbolic: bytes, minimal length, round trip" % ("be" if be else "le", n, tn))
+                    for s in "pn":
+                        if n == 0 and s == "n":
+                            continue
+                        H("c07_to_%s_bytes_i_%d_%s_%s" % ("be" if be else "le", n, s, tn), "h_text::to_bytes_i::<%d>(%s,%s,%d)" % (n, SIGN[s], "true" if be else "false", tv),
+                          pr if (s == "n" or tn in ("t80", "thi")) else (TH("C07") if cfg == "w64" else TH("C07", "C19")), cfg,
+                          unwind=(n + 2) * WBY + 4, bound="IBig::to_%s_bytes (%s), exactly %d words with top word literal %s: two's complement meaning and round trip" % ("be" if be else "le", s, n, tn))
     for radix in (2, 3, 7, 8, 10, 16, 32, 36):
         for L in (0, 1, 2, 3, 4, 5):
             for signed in (False, True):
@@ -587,42 +624,45 @@ def text_family():
 
 def nt_family():
     for w, nm in enumerate(("u8", "u16", "u32")):
-        H("c12_gcd_prim_%s" % nm, "h_nt::gcd_prim(%d)" % w, Q("C12") if w < 2 else TH("C12"), unwind=(20, 36, 70)[w],
+        H("c12_gcd_prim_%s" % nm, "h_nt::gcd_prim(%d)" % w, Q("C12") if w < 1 else ({"C12": "probe"} if w == 2 else TH("C12")), unwind=(20, 36, 70)[w],
           bound="dashu-base gcd/gcd_ext for every pair of %s (common divisor + Bezout identity)" % nm)
     H("c12_gcd_prim_zero", "h_nt::gcd_prim_zero()", Q("C12", "C16"), kind="panic", unwind=4, bound="gcd(0,0) panics")
     for w, nm in enumerate(("sqrt_u8", "sqrt_u16", "sqrt_u32", "sqrt_u64", "cbrt_u8", "cbrt_u16", "cbrt_u32", "cbrt_u64")):
-        H("c12_root_prim_%s" % nm, "h_nt::root_prim(%d)" % w, Q("C12") if nm in ("sqrt_u8", "sqrt_u16", "sqrt_u32", "cbrt_u8", "cbrt_u16") else TH("C12"), unwind=12,
+        H("c12_root_prim_%s" % nm, "h_nt::root_prim(%d)" % w, Q("C12") if nm in ("sqrt_u8", "sqrt_u16", "cbrt_u8", "cbrt_u16") else ({"C12": "probe"} if nm in ("sqrt_u64", "cbrt_u64") else TH("C12")), unwind=20,
           bound="dashu-base %s_rem for every value: s^k <= n < (s+1)^k and the remainder" % nm)
-    H("c12_log2_u8", "h_nt::log2_u16(1,255,true)", Q("C12", "C19"), unwind=4, bound="no_std log2_bounds for every u8, exact against floor/ceil(2^40 log2 n)")
-    for i in range(16):
-        lo, hi = max(1, i * 4096), i * 4096 + 4095
-        H("c12_log2_u16_%d" % i, "h_nt::log2_u16(%d,%d,false)" % (lo, hi), Q("C12", "C19") if i in (0, 1, 4, 15) else TH("C12", "C19"), unwind=4,
-          bound="no_std log2_bounds for every u16 in [%d,%d], exact against floor/ceil(2^40 log2 n)" % (lo, hi))
+    H("c12_log2_u8", "h_nt::log2_u16::<255>(1,true)", Q("C12", "C19"), unwind=260, bound="no_std log2_bounds for every u8, exact against floor/ceil(2^40 log2 n)")
+    for i in range(64):
+        lo = max(1, i * 1024)
+        span = 1024 if i else 1023
+        H("c12_log2_u16_%d" % i, "h_nt::log2_u16::<%d>(%d,false)" % (span, lo), Q("C12", "C19") if i in (0, 1, 16, 32, 63) else TH("C12", "C19"), unwind=1030,
+          bound="no_std log2_bounds for every u16 in [%d,%d], exact against floor/ceil(2^40 log2 n)" % (lo, lo + span - 1))
     H("c12_log2_zero", "h_nt::log2_zero()", Q("C12"), unwind=4)
-    for i in range(16):
-        lo, hi = 32768 + i * 2048, 32768 + i * 2048 + 2047
-        H("c12_log2_u32_%d" % i, "h_nt::log2_wide(false,%d,%d)" % (lo, hi), Q("C12", "C19") if i in (0, 7, 15) else TH("C12", "C19"), unwind=4,
-          bound="no_std log2_bounds for every u32 > 65535 whose 16-bit prefix is in [%d,%d]: bounds must enclose a rigorous enclosure of log2 n" % (lo, hi))
-        H("c12_log2_u64_%d" % i, "h_nt::log2_wide(true,%d,%d)" % (lo, hi), TH("C12", "C19"), unwind=4,
-          bound="no_std log2_bounds for every u64 > 65535 whose 16-bit prefix is in [%d,%d]" % (lo, hi))
+    for i in range(64):
+        lo = 32768 + i * 512
+        H("c12_log2_u32_%d" % i, "h_nt::log2_wide::<512,513>(false,%d)" % lo, Q("C12", "C19") if i in (0, 31, 63) else TH("C12", "C19"), unwind=520,
+          bound="no_std log2_bounds for every u32 > 65535 whose 16-bit prefix is in [%d,%d]: bounds must enclose a rigorous enclosure of log2 n" % (lo, lo + 511))
+        H("c12_log2_u64_%d" % i, "h_nt::log2_wide::<512,513>(true,%d)" % lo, TH("C12", "C19") if i in (0, 31, 63) else {"C12": "probe"}, unwind=520,
+          bound="no_std log2_bounds for every u64 > 65535 whose 16-bit prefix is in [%d,%d]" % (lo, lo + 511))
     H("c12_next_updown", "h_nt::next_updown()", Q("C12"), unwind=4, bound="next_up/next_down for every finite f32")
     H("c12_nth_root_zero", "h_nt::nth_root_zero_one(false)", Q("C12"), "i64", unwind=6, bound="UBig/IBig::nth_root(n) of 0 for every n >= 1")
-    H("c12_nth_root_one", "h_nt::nth_root_zero_one(true)", Q("C12"), "i64", unwind=6, bound="UBig/IBig::nth_root(n) of 1 for every n >= 1")
+    H("c12_nth_root_one", "h_nt::nth_root_zero_one(true)", {"C12": "probe"}, "i64", unwind=6, bound="UBig/IBig::nth_root(n) of 1 for every n >= 1")
     for n in (3, 4, 5, 7, 64, 100):
         H("c12_nth_root_tiny_%d" % n, "h_nt::nth_root_tiny(%d)" % n, TH("C12"), "i64", unwind=6,
           bound="UBig::nth_root(%d) for every value below 2^%d (incl. 0)" % (n, min(n, 64)))
     for w in range(4):
-        H("c12_sqrt_small_%d" % w, "h_nt::sqrt_small(16,%d)" % w, Q("C12") if w in (0, 1) else TH("C12"), "i64", unwind=12, bound="UBig sqrt/sqrt_rem/nth_root(1,2) for every value below 2^16")
-        H("c12_sqrt_word_%d" % w, "h_nt::sqrt_small(63,%d)" % w, TH("C12"), "i64", unwind=12, bound="UBig sqrt/sqrt_rem for every value below 2^63")
+        H("c12_sqrt_small_%d" % w, "h_nt::sqrt_small(16,%d)" % w, {"C12": "probe"}, "i64", unwind=12, bound="UBig sqrt/sqrt_rem/nth_root(1,2) for every value below 2^16")
+        H("c12_sqrt_word_%d" % w, "h_nt::sqrt_small(63,%d)" % w, {"C12": "probe"}, "i64", unwind=12, bound="UBig sqrt/sqrt_rem for every value below 2^63")
     for s in "pn":
-        H("c12_cbrt_small_%s" % s, "h_nt::cbrt_small(%s,10)" % SIGN[s], Q("C12", "C16"), "i64", unwind=24, bound="IBig::cbrt / nth_root(3), |x| < 2^10, sign %s" % s)
+        H("c12_cbrt_tiny_%s" % s, "h_nt::cbrt_tiny(%s)" % SIGN[s], {"C12": "probe"}, "i64", unwind=3, bound="IBig::cbrt / nth_root(3) for 0 < |x| < 8, sign %s: +-1, no panic" % s)
+        H("c12_cbrt_small_%s" % s, "h_nt::cbrt_small(%s,10)" % SIGN[s], {"C12": "probe"}, "i64", unwind=24, bound="IBig::cbrt / nth_root(3), |x| < 2^10, sign %s" % s)
+    H("c12_cbrt_literals", "h_nt::cbrt_literals()", Q("C12", "C16"), "i64", unwind=40, bound="IBig::cbrt of the literals -1,-7,-8,-9,-27,-1000,8,26 (no symbolic input: the symbolic variants are probes)")
     for w in range(9):
         H("c12_root_panics_%d" % w, "h_nt::root_panics(%d)" % w, Q("C12", "C16"), "i64", kind="panic", unwind=8, bound="documented panics of roots / ilog / gcd(0,0)")
     for n in (1, 2, 3):
         for k in (1, 3, 4, 16):
             H("c12_ilog_pow2_%d_k%d" % (n, k), "h_nt::ilog_pow2::<%d>(%d)" % (n, k), Q("C12") if (n + k) % 2 == 0 else TH("C12"), unwind=n + 4, bound="UBig::ilog(2^%d) for every value of exactly %d words" % (k, n))
-    H("c12_gcd_small_8", "h_nt::gcd_small(8)", Q("C12"), "i64", unwind=300, bound="UBig gcd/gcd_ext, operands below 2^8 (Bezout identity)")
-    H("c12_gcd_small_16", "h_nt::gcd_small(16)", TH("C12"), "i64", unwind=300, bound="UBig gcd/gcd_ext, operands below 2^16")
+    H("c12_gcd_small_8", "h_nt::gcd_small(8)", {"C12": "probe"}, "i64", unwind=300, bound="UBig gcd/gcd_ext, operands below 2^8 (Bezout identity)")
+    H("c12_gcd_small_16", "h_nt::gcd_small(16)", {"C12": "probe"}, "i64", unwind=300, bound="UBig gcd/gcd_ext, operands below 2^16")
     for b in (12, 1024, 10, 3):
         for n in (3, 4):
             for sw in (False, True):
@@ -682,8 +722,9 @@ def round_family():
               bound="Round::round_ratio, mode %s, |num| <= |den| < 2^%d, every sign combination" % (mn, bits))
     H("c10_add_rounding", "h_round::add_rounding()", Q("C10"), "i64", unwind=6, bound="IBig + Rounding, |integer| < 2^40")
     for B in (2, 10, 3, 16):
-        H("c15_fbig_shift_b%d" % B, "h_round::fbig_shift::<%d>()" % B, Q("C15") if B in (2, 10) else TH("C15"), "i64", unwind=8,
-          bound="FBig<Zero,%d> << / <<= / >> / >>=, |significand| < 2^30 (normalised), |exponent|,|k| < 1000" % B)
+        for right in (False, True):
+            H("c15_fbig_%s_b%d" % ("shr" if right else "shl", B), "h_round::fbig_shift::<%d>(%s)" % (B, "true" if right else "false"), Q("C15") if B in (2, 16) else TH("C15"), "i64", unwind=8,
+              bound="FBig<Zero,%d> %s, |significand| < 2^30 (normalised), |exponent|,|k| < 1000" % (B, ">> vs >>=" if right else "<< vs <<="))
     H("c15_fbig_shift_zero", "h_round::fbig_shift_zero()", Q("C15"), "i64", unwind=8, bound="FBig zero under every shift form, |k| < 1000")
 
 
@@ -751,6 +792,36 @@ def float_family():
           bound="Context<%s>::new(5).mul on base-2 floats, |a|,|b| < 2^8" % mn)
 
 
+def demote_probes():
+    """harnesses that the calibration runs showed to be undecided inside the quick time limit (time-out or out of
+    memory on the UNCHANGED tree) are listed in probe_list.txt; they stay in the table as documentation of what was
+    tried (./check <ID> --tier probe) but belong to no registered command - an undecided harness is not a pass"""
+    import os
+    path = os.path.join(os.path.dirname(os.path.abspath(__file__)), "probe_list.txt")
+    if not os.path.exists(path):
+        return
+    names = {l.split()[0] for l in open(path) if l.strip() and not l.startswith("#")}
+    for e in T:
+        if e["name"] in names:
+            for prop in list(e["props"]):
+                e["props"][prop] = "probe"
+
+
+def demote_slow(limit=75.0):
+    """harnesses whose measured time (engines/timings.json, from calibration runs on 14 cores) exceeds `limit`
+    seconds leave the quick tier (they stay in thorough)"""
+    import os, json
+    path = os.path.join(os.path.dirname(os.path.abspath(__file__)), "timings.json")
+    if not os.path.exists(path):
+        return
+    t = json.load(open(path))
+    for e in T:
+        if t.get(e["name"], 0) > limit:
+            for prop in list(e["props"]):
+                if e["props"][prop] == "quick":
+                    e["props"][prop] = "thorough"
+
+
 def thin():
     """secondary properties (C15 forms, C17 invariants, C16 panics) ride on the harnesses of the arithmetic
     families; in the quick tier they keep a deterministic quarter of those (all of them in thorough)"""
@@ -784,4 +855,6 @@ def build():
     # float_family() is NOT registered: every instance ran out of time/memory (DESIGN 0.2 (k)); the bodies in
     # h_float.rs are kept because their native random run (--selftest) exposed a genuine rounding defect
     thin()
+    demote_slow()
+    demote_probes()
     return T
